@@ -31,10 +31,14 @@ type X struct {
 	FailWrite    int // fail the k-th output write (1-based), 0 = never
 	FaultStep    int // step at which the injected fault fired (0 = none)
 	FaultText    string
+	TermFills    map[int]int // per bar: Fill calls that saw a terminal state
+	Queued       map[int]int // per predecessor: successors queued behind it so far
 	Viol         []string
 }
 
-func NewX() *X { return &X{Shut: map[string]int{}, Events: map[string]int{}} }
+func NewX() *X {
+	return &X{Shut: map[string]int{}, Events: map[string]int{}, TermFills: map[int]int{}, Queued: map[int]int{}}
+}
 
 type OutWrite struct {
 	Step int
